@@ -4505,13 +4505,17 @@ EmitModVSib:
       if (ASMJIT_UNLIKELY(mod == 0xFF))
         goto InvalidAddress;
 
+      // EVEX uses compressed displacement (disp8*N) in 16-bit address mode as well.
+      uint32_t cd_shift = (opcode & Opcode::kCDSHL_Mask) >> Opcode::kCDSHL_Shift;
+      int32_t cd_offset = rel_offset >> cd_shift;
+
       mod += op_reg << 3;
       if (rel_offset == 0 && (mod & 0x07u) != 0x06u) {
         writer.emit8(mod);
       }
-      else if (Support::is_int_n<8>(rel_offset)) {
+      else if (Support::is_int_n<8>(cd_offset) && rel_offset == int32_t(uint32_t(cd_offset) << cd_shift)) {
         writer.emit8(mod + 0x40);
-        writer.emit8(uint32_t(rel_offset));
+        writer.emit8(uint32_t(cd_offset));
       }
       else {
         writer.emit8(mod + 0x80);
